@@ -8,6 +8,7 @@ import (
 	"os"
 	"os/exec"
 	"path/filepath"
+	"regexp"
 	"sort"
 	"strings"
 	"sync"
@@ -21,8 +22,58 @@ type SolverCfg struct {
 	KeepAll  bool
 }
 
+var heapSymRe = regexp.MustCompile(`(?:H_[^ ()]+|v_H_[^ ()]+|v_apparr![0-9]+|v_cparr![0-9]+|v_m_h![0-9]+)`)
+
+// litePC drops quantified path-condition entries that only talk about heap arrays the
+// goal never mentions (dropping assumptions is always sound; it only shrinks the
+// instantiation space of the solver).
+func (ob *Obligation) litePC() []Term {
+	goalSyms := map[string]bool{}
+	for _, m := range heapSymRe.FindAllString(ob.Goal.S, -1) {
+		goalSyms[heapFamily(m)] = true
+	}
+	// heaps mentioned by ground (quantifier-free) entries that share a non-heap symbol with the goal are kept too
+	var out []Term
+	for _, p := range ob.PC {
+		if !strings.Contains(p.S, "(forall ") {
+			out = append(out, p)
+			continue
+		}
+		keep := false
+		syms := heapSymRe.FindAllString(p.S, -1)
+		if len(syms) == 0 {
+			keep = true
+		}
+		for _, m := range syms {
+			if goalSyms[heapFamily(m)] {
+				keep = true
+			}
+		}
+		if keep {
+			out = append(out, p)
+		}
+	}
+	return out
+}
+
+// heapFamily maps a versioned heap constant to its heap name.
+func heapFamily(sym string) string {
+	if i := strings.Index(sym, "@"); i > 0 {
+		sym = sym[:i]
+	}
+	if i := strings.Index(sym, "!"); i > 0 {
+		sym = sym[:i]
+	}
+	sym = strings.TrimPrefix(sym, "v_")
+	return sym
+}
+
 // smtText renders an obligation as a complete SMT-LIB script.
 func (ob *Obligation) smtText(withModel bool) string {
+	return ob.smtTextPC(withModel, ob.PC)
+}
+
+func (ob *Obligation) smtTextPC(withModel bool, pc []Term) string {
 	var b strings.Builder
 	if withModel {
 		b.WriteString("(set-option :produce-models true)\n")
@@ -68,7 +119,7 @@ func (ob *Obligation) smtText(withModel bool) string {
 		b.WriteByte('\n')
 	}
 	fmt.Fprintf(&b, "; obligation %s (%s)\n; %s\n", ob.Name, ob.Pos, strings.ReplaceAll(ob.Descr, "\n", " "))
-	for _, p := range ob.PC {
+	for _, p := range pc {
 		fmt.Fprintf(&b, "(assert %s)\n", p.S)
 	}
 	if !ob.Cover {
@@ -107,6 +158,12 @@ type solver struct {
 	args func(timeoutMs int, file string) []string
 }
 
+// extra seeds raced in stage 2 (quantifier instantiation order is seed-sensitive)
+var seedSolvers = []solver{
+	{"z3-new/seed0", func(ms int, f string) []string { return []string{"z3-new", fmt.Sprintf("-T:%d", (ms+999)/1000), "smt.random_seed=0", f} }},
+	{"z3-new/seed3", func(ms int, f string) []string { return []string{"z3-new", fmt.Sprintf("-T:%d", (ms+999)/1000), "smt.random_seed=3", f} }},
+}
+
 var solvers = []solver{
 	{"z3-new", func(ms int, f string) []string { return []string{"z3-new", fmt.Sprintf("-T:%d", (ms+999)/1000), "smt.random_seed=7", f} }},
 	{"cvc5", func(ms int, f string) []string {
@@ -119,7 +176,16 @@ func runSolver(s solver, file string, timeout time.Duration) (status, output str
 	return runSolverCtx(context.Background(), s, file, timeout)
 }
 
+// procSem bounds the number of solver processes running at once (one per core).
+var procSem = make(chan struct{}, 14)
+
 func runSolverCtx(parent context.Context, s solver, file string, timeout time.Duration) (status, output string, secs float64) {
+	select {
+	case procSem <- struct{}{}:
+	case <-parent.Done():
+		return "cancelled", "", 0
+	}
+	defer func() { <-procSem }()
 	ctx, cancel := context.WithTimeout(parent, timeout+2*time.Second)
 	defer cancel()
 	args := s.args(int(timeout/time.Millisecond), file)
@@ -131,7 +197,15 @@ func runSolverCtx(parent context.Context, s solver, file string, timeout time.Du
 	cmd.Run()
 	secs = time.Since(t0).Seconds()
 	output = out.String()
-	first := strings.TrimSpace(strings.SplitN(output, "\n", 2)[0])
+	first := ""
+	for _, l := range strings.Split(output, "\n") {
+		l = strings.TrimSpace(l)
+		if l == "" || strings.HasPrefix(l, "WARNING") || strings.HasPrefix(l, "(warning") {
+			continue
+		}
+		first = l
+		break
+	}
 	switch {
 	case first == "unsat":
 		return "unsat", output, secs
@@ -220,11 +294,12 @@ func solveOne(ob *Obligation, cfg SolverCfg) {
 		}
 		if !cfg.KeepAll && ob.Status == "unsat" {
 			os.Remove(fname)
+			os.Remove(strings.TrimSuffix(fname, ".smt2") + ".lite.smt2")
 			ob.File = ""
 		}
 	}
 	// stage 1: the usual winner alone, briefly
-	quick := 2 * time.Second
+	quick := 3 * time.Second
 	if cfg.Timeout < quick {
 		quick = cfg.Timeout
 	}
@@ -244,17 +319,32 @@ func solveOne(ob *Obligation, cfg SolverCfg) {
 		out  string
 		secs float64
 	}
-	ch := make(chan res, len(solvers))
+	racers := append(append([]solver(nil), solvers...), seedSolvers...)
+	// lite variant: irrelevant quantified heap assumptions dropped (only "unsat" is trusted from it)
+	lfile := ""
+	if lite := ob.litePC(); len(lite) < len(ob.PC) {
+		lfile = strings.TrimSuffix(fname, ".smt2") + ".lite.smt2"
+		os.WriteFile(lfile, []byte(ob.smtTextPC(false, lite)), 0o644)
+		racers = append(racers, solver{"z3-new/lite", solvers[0].args}, solver{"z3-new/lite/seed0", seedSolvers[0].args})
+	}
+	ch := make(chan res, len(racers))
 	ctx, cancel := context.WithCancel(context.Background())
-	for _, sv := range solvers {
+	for _, sv := range racers {
 		go func(sv solver) {
-			st, out, secs := runSolverCtx(ctx, sv, fname, cfg.Timeout)
+			file := fname
+			if strings.Contains(sv.name, "/lite") {
+				file = lfile
+			}
+			st, out, secs := runSolverCtx(ctx, sv, file, cfg.Timeout)
+			if strings.Contains(sv.name, "/lite") && st != "unsat" {
+				st = "unknown" // a model of the weakened query proves nothing
+			}
 			ch <- res{sv, st, out, secs}
 		}(sv)
 	}
 	var winner *res
 	maxSecs := 0.0
-	for range solvers {
+	for range racers {
 		r := <-ch
 		if r.secs > maxSecs {
 			maxSecs = r.secs
